@@ -240,7 +240,20 @@ func vnRun(req vnReq) (resp vnResp) {
 		}
 		time.Sleep(50 * time.Microsecond)
 	}
-	time.Sleep(200 * time.Microsecond)
+	// the entry leaves the table before its socket is closed and its removal... give both a bounded time
+	for t := time.Now(); time.Since(t) < 2*time.Second; {
+		fc.mu.Lock()
+		closed := fc.closed
+		fc.mu.Unlock()
+		m.mu.Lock()
+		removed := m.removed
+		m.mu.Unlock()
+		if closed && removed > 0 {
+			break
+		}
+		time.Sleep(50 * time.Microsecond)
+	}
+	time.Sleep(100 * time.Microsecond) // a second removal report, if any, would follow at once
 	fc.mu.Lock()
 	resp.Deadlines = append([]vnDeadline(nil), fc.log...)
 	resp.Closed = fc.closed
